@@ -3,6 +3,390 @@ C13 — helper lemmas about the DOE layer and the shared cache of `Model/C13.lea
 -/
 import GemseoVerif.Model.C13
 
+set_option linter.unusedSimpArgs false
+set_option linter.unusedSectionVars false
+set_option linter.unusedVariables false
+
 namespace GV.C13
+
+variable {κ ν : Type} [DecidableEq κ]
+
+/-! ### Keys in first-occurrence order -/
+
+def addKey (ks : List κ) (x : κ) : List κ := if x ∈ ks then ks else ks ++ [x]
+
+def addKeys (ks : List κ) : List κ → List κ
+  | [] => ks
+  | x :: xs => addKeys (addKey ks x) xs
+
+theorem mem_addKey {ks : List κ} {x y : κ} : y ∈ addKey ks x ↔ y ∈ ks ∨ y = x := by
+  unfold addKey
+  split
+  · constructor
+    · exact Or.inl
+    · rintro (h | h)
+      · exact h
+      · subst h; assumption
+  · simp
+
+theorem nodup_addKey {ks : List κ} (h : ks.Nodup) (x : κ) : (addKey ks x).Nodup := by
+  unfold addKey
+  split
+  · exact h
+  · rename_i hx
+    rw [List.nodup_append]
+    refine ⟨h, by simp, ?_⟩
+    intro a ha b hb
+    simp only [List.mem_singleton] at hb
+    subst hb
+    intro hab
+    subst hab
+    exact hx ha
+
+theorem mem_addKeys {ks xs : List κ} {y : κ} : y ∈ addKeys ks xs ↔ y ∈ ks ∨ y ∈ xs := by
+  induction xs generalizing ks with
+  | nil => simp [addKeys]
+  | cons x xs ih =>
+    simp only [addKeys, ih, mem_addKey, List.mem_cons]
+    constructor
+    · rintro ((h | h) | h)
+      · exact Or.inl h
+      · exact Or.inr (Or.inl h)
+      · exact Or.inr (Or.inr h)
+    · rintro (h | h | h)
+      · exact Or.inl (Or.inl h)
+      · exact Or.inl (Or.inr h)
+      · exact Or.inr h
+
+theorem nodup_addKeys {ks : List κ} (h : ks.Nodup) (xs : List κ) : (addKeys ks xs).Nodup := by
+  induction xs generalizing ks with
+  | nil => simpa [addKeys] using h
+  | cons x xs ih => exact ih (nodup_addKey h x)
+
+/-! ### `Database.store` on a database written as `keys.map (k ↦ (k, g k))` -/
+
+def merge (o v : Option ν) : Option ν :=
+  match o with
+  | some w => some w
+  | none => v
+
+theorem dbStore_map_not_mem (ks : List κ) (g : κ → Option ν) (x : κ) (o : Option ν) (hx : x ∉ ks) :
+    dbStore (ks.map (fun k => (k, g k))) x o = ks.map (fun k => (k, g k)) ++ [(x, o)] := by
+  induction ks with
+  | nil => simp [dbStore]
+  | cons k ks ih =>
+    simp only [List.mem_cons, not_or] at hx
+    have hk : ¬ k = x := fun h => hx.1 h.symm
+    simp [dbStore, hk, ih hx.2]
+
+theorem dbStore_map_mem (ks : List κ) (g : κ → Option ν) (x : κ) (o : Option ν) (hx : x ∈ ks)
+    (hn : ks.Nodup) :
+    dbStore (ks.map (fun k => (k, g k))) x o
+      = ks.map (fun k => (k, if k = x then merge o (g k) else g k)) := by
+  induction ks with
+  | nil => simp at hx
+  | cons k ks ih =>
+    have hn' := List.nodup_cons.mp hn
+    by_cases hk : k = x
+    · subst hk
+      simp only [List.map_cons, dbStore, if_true, merge]
+      congr 1
+      apply List.map_congr_left
+      intro a ha
+      have : ¬ a = k := fun h => hn'.1 (h ▸ ha)
+      simp [this]
+    · have hx' : x ∈ ks := by
+        rcases List.mem_cons.mp hx with h | h
+        · exact absurd h.symm hk
+        · exact h
+      simp [dbStore, hk, ih hx' hn'.2]
+
+/-! ### The three phases of the parallel DOE -/
+
+def blank (ks : List κ) : Db κ ν := ks.map (fun k => (k, none))
+
+/-- Entries of the keys in `D` hold their value, the others are still empty. -/
+def part (eval : κ → Option ν) (D ks : List κ) : Db κ ν :=
+  ks.map (fun k => (k, if k ∈ D then eval k else none))
+
+/-- The canonical final database: successful keys in first-occurrence order with their values. -/
+def canon (eval : κ → Option ν) (ks : List κ) : Db κ ν :=
+  (ks.filter (fun k => (eval k).isSome)).map (fun k => (k, eval k))
+
+theorem blank_eq_part (eval : κ → Option ν) (ks : List κ) : (blank ks : Db κ ν) = part eval [] ks := by
+  simp [blank, part]
+
+theorem dbStore_blank_none (ks : List κ) (x : κ) :
+    dbStore (blank ks : Db κ ν) x none = blank (addKey ks x) := by
+  unfold addKey
+  split
+  · rename_i hx
+    induction ks with
+    | nil => simp at hx
+    | cons k ks ih =>
+      by_cases hk : k = x
+      · simp [blank, dbStore, hk]
+      · have hx' : x ∈ ks := by
+          rcases List.mem_cons.mp hx with h | h
+          · exact absurd h.symm hk
+          · exact h
+        have := ih hx'
+        simp only [blank] at this
+        simp [blank, dbStore, hk, this]
+  · rename_i hx
+    simp only [blank]
+    rw [dbStore_map_not_mem ks (fun _ => none) x none hx]
+    simp
+
+theorem doePreseed_blank (ks xs : List κ) :
+    doePreseed (blank ks : Db κ ν) xs = blank (addKeys ks xs) := by
+  induction xs generalizing ks with
+  | nil => simp [doePreseed, addKeys]
+  | cons x xs ih => simp [doePreseed, addKeys, dbStore_blank_none, ih]
+
+theorem dbStore_part (eval : κ → Option ν) (D ks : List κ) (x : κ) (hx : x ∈ ks) (hn : ks.Nodup) :
+    dbStore (part eval D ks) x (eval x) = part eval (x :: D) ks := by
+  simp only [part]
+  rw [dbStore_map_mem ks _ x (eval x) hx hn]
+  apply List.map_congr_left
+  intro k _
+  by_cases hk : k = x
+  · subst hk
+    cases h : eval k <;> simp [merge, h]
+  · simp [hk]
+
+theorem doeCallbacks_part (eval : κ → Option ν) (samples ks : List κ) (hn : ks.Nodup)
+    (hs : ∀ x ∈ samples, x ∈ ks) (D : List κ) (cbs : List Nat) :
+    ∃ D', doeCallbacks eval samples (part eval D ks) cbs = part eval D' ks ∧
+      (∀ k, k ∈ D' ↔ k ∈ D ∨ ∃ i ∈ cbs, samples[i]? = some k) := by
+  induction cbs generalizing D with
+  | nil => exact ⟨D, by simp [doeCallbacks], by simp⟩
+  | cons i is ih =>
+    simp only [doeCallbacks]
+    cases hi : samples[i]? with
+    | none =>
+      obtain ⟨D', h1, h2⟩ := ih D
+      refine ⟨D', h1, ?_⟩
+      intro k
+      rw [h2 k]
+      constructor
+      · rintro (h | ⟨j, hj, hk⟩)
+        · exact Or.inl h
+        · exact Or.inr ⟨j, List.mem_cons_of_mem _ hj, hk⟩
+      · rintro (h | ⟨j, hj, hk⟩)
+        · exact Or.inl h
+        · rcases List.mem_cons.mp hj with rfl | hj
+          · simp [hi] at hk
+          · exact Or.inr ⟨j, hj, hk⟩
+    | some x =>
+      have hx : x ∈ ks := hs x (List.mem_of_getElem? hi)
+      simp only [dbStore_part eval D ks x hx hn]
+      obtain ⟨D', h1, h2⟩ := ih (x :: D)
+      refine ⟨D', h1, ?_⟩
+      intro k
+      rw [h2 k]
+      constructor
+      · rintro (h | ⟨j, hj, hk⟩)
+        · rcases List.mem_cons.mp h with rfl | h
+          · exact Or.inr ⟨i, by simp, hi⟩
+          · exact Or.inl h
+        · exact Or.inr ⟨j, List.mem_cons_of_mem _ hj, hk⟩
+      · rintro (h | ⟨j, hj, hk⟩)
+        · exact Or.inl (List.mem_cons_of_mem _ h)
+        · rcases List.mem_cons.mp hj with rfl | hj
+          · rw [hi] at hk
+            cases hk
+            exact Or.inl (by simp)
+          · exact Or.inr ⟨j, hj, hk⟩
+
+theorem removeEmpty_part (eval : κ → Option ν) (D ks : List κ)
+    (hc : ∀ k ∈ ks, (eval k).isSome → k ∈ D) :
+    dbRemoveEmpty (part eval D ks) = canon eval ks := by
+  induction ks with
+  | nil => simp [dbRemoveEmpty, part, canon]
+  | cons k ks ih =>
+    have ih' := ih (fun a ha => hc a (List.mem_cons_of_mem _ ha))
+    simp only [dbRemoveEmpty, part, canon] at ih' ⊢
+    by_cases hk : (eval k).isSome
+    · have hD := hc k (by simp) hk
+      simp [hk, hD, ih']
+    · have : (if k ∈ D then eval k else none).isSome = false := by
+        by_cases hD : k ∈ D <;> simp [hD] <;> simpa using hk
+      simp [hk, this, ih']
+
+/-! ### The sequential DOE -/
+
+theorem canon_append (eval : κ → Option ν) (ks : List κ) (x : κ) :
+    canon eval (ks ++ [x]) = canon eval ks ++ (match eval x with | some _ => [(x, eval x)] | none => []) := by
+  simp only [canon, List.filter_append, List.map_append]
+  cases h : eval x <;> simp [h]
+
+theorem dbStore_canon (eval : κ → Option ν) (ks : List κ) (hn : ks.Nodup) (x : κ) (v : ν)
+    (hv : eval x = some v) : dbStore (canon eval ks) x (some v) = canon eval (addKey ks x) := by
+  unfold addKey
+  split
+  · rename_i hx
+    have hx' : x ∈ ks.filter (fun k => (eval k).isSome) := by
+      simp [List.mem_filter, hx, hv]
+    simp only [canon]
+    rw [dbStore_map_mem _ _ x (some v) hx' (hn.filter _)]
+    apply List.map_congr_left
+    intro k _
+    by_cases hk : k = x
+    · subst hk; simp [merge, hv]
+    · simp [hk]
+  · rename_i hx
+    have hx' : x ∉ ks.filter (fun k => (eval k).isSome) := fun h => hx (List.mem_filter.mp h).1
+    rw [canon_append]
+    simp only [canon, hv]
+    rw [dbStore_map_not_mem _ _ x (some v) hx']
+
+theorem canon_addKey_none (eval : κ → Option ν) (ks : List κ) (x : κ) (hv : eval x = none) :
+    canon eval (addKey ks x) = canon eval ks := by
+  unfold addKey
+  split
+  · rfl
+  · rw [canon_append]; simp [hv]
+
+theorem doeSequential_canon (eval : κ → Option ν) (ks : List κ) (hn : ks.Nodup) (xs : List κ) :
+    doeSequential eval (canon eval ks) xs = canon eval (addKeys ks xs) := by
+  induction xs generalizing ks with
+  | nil => simp [doeSequential, addKeys]
+  | cons x xs ih =>
+    simp only [doeSequential, addKeys]
+    cases hv : eval x with
+    | none =>
+      simp only []
+      rw [← canon_addKey_none eval ks x hv]
+      exact ih _ (nodup_addKey hn x)
+    | some v =>
+      simp only []
+      rw [dbStore_canon eval ks hn x v hv]
+      exact ih _ (nodup_addKey hn x)
+
+/-! ### Shared cache -/
+
+theorem cacheLookup_nil (x : κ) : cacheLookup ([] : Cache κ ν) x = none := rfl
+
+theorem cacheLookup_cons (p : κ × ν) (ps : Cache κ ν) (x : κ) :
+    cacheLookup (p :: ps) x = if p.1 = x then some p.2 else cacheLookup ps x := by
+  by_cases hp : p.1 = x <;> simp [cacheLookup, List.find?, hp]
+
+theorem any_cons_key (p : κ × ν) (ps : Cache κ ν) (x : κ) :
+    (p :: ps).any (fun e => decide (e.1 = x)) = (decide (p.1 = x) || ps.any (fun e => decide (e.1 = x))) := by
+  simp
+
+theorem cacheLookup_append_of_mem (cch : Cache κ ν) (e : κ × ν) (x : κ)
+    (h : cch.any (fun p => p.1 = x) = true) : cacheLookup (cch ++ [e]) x = cacheLookup cch x := by
+  induction cch with
+  | nil => simp at h
+  | cons p ps ih =>
+    rw [List.cons_append, cacheLookup_cons, cacheLookup_cons]
+    by_cases hp : p.1 = x
+    · simp [hp]
+    · have : ps.any (fun p => p.1 = x) = true := by simpa [hp] using h
+      simp [hp, ih this]
+
+theorem cacheLookup_append_of_not_mem (cch : Cache κ ν) (e : κ × ν) (x : κ)
+    (h : cch.any (fun p => p.1 = x) = false) :
+    cacheLookup (cch ++ [e]) x = if e.1 = x then some e.2 else none := by
+  induction cch with
+  | nil => rw [List.nil_append, cacheLookup_cons, cacheLookup_nil]
+  | cons p ps ih =>
+    have hp : ¬ p.1 = x := by
+      intro hp
+      simp [hp] at h
+    have : ps.any (fun p => p.1 = x) = false := by simpa [hp] using h
+    rw [List.cons_append, cacheLookup_cons]
+    simp [hp, ih this]
+
+theorem cacheLookup_eq_none_iff (cch : Cache κ ν) (x : κ) :
+    cacheLookup cch x = none ↔ cch.any (fun p => p.1 = x) = false := by
+  induction cch with
+  | nil => simp [cacheLookup_nil]
+  | cons p ps ih =>
+    rw [cacheLookup_cons]
+    by_cases hp : p.1 = x
+    · simp [hp]
+    · simp only [hp, if_false, ih]
+      simp [hp]
+
+/-- One atomic `cache_outputs`: the looked-up value of every key. -/
+theorem cacheLookup_cacheOutputs (cch : Cache κ ν) (x y : κ) (v : ν) :
+    cacheLookup (cacheOutputs cch x v) y =
+      match cacheLookup cch y with
+      | some w => some w
+      | none => if x = y then some v else none := by
+  unfold cacheOutputs
+  by_cases hx : cch.any (fun e => e.1 = x) = true
+  · simp only [hx, if_true]
+    cases hl : cacheLookup cch y with
+    | some w => rfl
+    | none =>
+      have := (cacheLookup_eq_none_iff cch y).mp hl
+      by_cases hxy : x = y
+      · subst hxy; simp [this] at hx
+      · simp [hxy]
+  · have hx' : cch.any (fun e => e.1 = x) = false := by cases hb : cch.any (fun e => decide (e.1 = x)) with | false => rfl | true => exact absurd hb hx
+    simp only [hx', Bool.false_eq_true, if_false]
+    by_cases hy : cch.any (fun e => e.1 = y) = true
+    · rw [cacheLookup_append_of_mem cch (x, v) y hy]
+      cases hl : cacheLookup cch y with
+      | some w => rfl
+      | none =>
+        have := (cacheLookup_eq_none_iff cch y).mp hl
+        simp [this] at hy
+    · have hy' : cch.any (fun e => e.1 = y) = false := by cases hb : cch.any (fun e => decide (e.1 = y)) with | false => rfl | true => exact absurd hb hy
+      rw [cacheLookup_append_of_not_mem cch (x, v) y hy']
+      have := (cacheLookup_eq_none_iff cch y).mpr hy'
+      simp [this]
+
+theorem cacheLookup_cacheWrites (f : κ → ν) (cch : Cache κ ν) (xs : List κ) (y : κ) :
+    cacheLookup (cacheWrites f cch xs) y =
+      match cacheLookup cch y with
+      | some w => some w
+      | none => if y ∈ xs then some (f y) else none := by
+  induction xs generalizing cch with
+  | nil => simp [cacheWrites]; cases cacheLookup cch y <;> rfl
+  | cons x xs ih =>
+    simp only [cacheWrites]
+    rw [ih, cacheLookup_cacheOutputs]
+    cases hl : cacheLookup cch y with
+    | some w => rfl
+    | none =>
+      by_cases hxy : x = y
+      · subst hxy; simp
+      · have : ¬ y = x := fun h => hxy h.symm
+        simp [hxy, this]
+
+theorem any_key_iff (cch : Cache κ ν) (x : κ) :
+    (cch.any (fun e => decide (e.1 = x)) = true) ↔ x ∈ cch.map Prod.fst := by
+  induction cch with
+  | nil => simp
+  | cons p ps ih =>
+    rw [any_cons_key, Bool.or_eq_true, ih, List.map_cons, List.mem_cons, decide_eq_true_eq]
+    constructor
+    · rintro (h | h)
+      · exact Or.inl h.symm
+      · exact Or.inr h
+    · rintro (h | h)
+      · exact Or.inl h.symm
+      · exact Or.inr h
+
+theorem keys_cacheOutputs (cch : Cache κ ν) (x : κ) (v : ν) :
+    (cacheOutputs cch x v).map Prod.fst = addKey (cch.map Prod.fst) x := by
+  unfold cacheOutputs addKey
+  by_cases h : cch.any (fun e => decide (e.1 = x)) = true
+  · have hm := (any_key_iff cch x).mp h
+    rw [if_pos h, if_pos hm]
+  · have hm : x ∉ cch.map Prod.fst := fun hm => h ((any_key_iff cch x).mpr hm)
+    rw [if_neg h, if_neg hm, List.map_append]
+    rfl
+
+theorem keys_cacheWrites (f : κ → ν) (cch : Cache κ ν) (xs : List κ) :
+    (cacheWrites f cch xs).map Prod.fst = addKeys (cch.map Prod.fst) xs := by
+  induction xs generalizing cch with
+  | nil => simp [cacheWrites, addKeys]
+  | cons x xs ih => simp [cacheWrites, addKeys, ih, keys_cacheOutputs]
 
 end GV.C13
